@@ -5,8 +5,8 @@ CONSTANTS
 VIEW view
 INVARIANT TypeOK
 INVARIANT TasksPerm
-INVARIANT NoDeadAfterPurge
-INVARIANT JobsListsLive
+PROPERTY NoDeadAfterPurge
+PROPERTY JobsListsLive
 PROPERTY LowestFree
 PROPERTY ErrorAltersNothing
 PROPERTY SelectionRule
